@@ -321,6 +321,11 @@ def add_subscribers(b, inst, rng, raising=False, dynamic=False):
             if rng.random() < 0.5:
                 b.op(op="sub", who=f"Y{z['n']}", kind="zone", target=f"zone:{z['n']}", **{rng.choice(["once", "adds"]): True})
     for a in inst["acs"]:
+        if rng.random() < 0.35:     # the same callback subscribed to all updates AND to AC state
+            w = f"B{a['n']}"
+            b.op(op="sub", who=w, kind="ac", target=f"ac:{a['n']}")
+            b.op(op="sub", who=w, kind="ac_state", target=f"ac:{a['n']}")
+            subs.append(w)
         if rng.random() < 0.7:
             w = f"A{a['n']}"
             b.op(op="sub", who=w, kind="ac", target=f"ac:{a['n']}", raises=raising and rng.random() < 0.3)
@@ -345,9 +350,18 @@ def c14_script(seed, proto):
     inst = installation(proto, rng, n_acs=rng.randrange(1, 3), n_zones=rng.randrange(1, 5))
     b = ClientBuilder(proto, rng)
     b.preamble()
+    t = 0
+    if rng.random() < 0.3:
+        # an earlier life of the same object: init, some time, shutdown; the second life is judged
+        # like a first one (refresh after reconnection, AT4 poll during silence)
+        b.init(inst, snapshot=False)
+        t = rng.choice([1000, 100000, 250000])
+        b.op(op="advance", to=t)
+        b.shutdown()
+        t += 10000
     b.init(inst)
     add_subscribers(b, inst, rng)
-    t = 0
+    base = t
     for _ in range(rng.randrange(1, 4)):
         kind = rng.choice(["loss", "loss", "gap"] if proto == "at4" else ["loss"])
         if kind == "gap":           # AT4: silence of group status: a poll every 300 s for as long as it lasts
@@ -415,7 +429,7 @@ def c15_script(seed, proto):
     inst = installation(proto, rng, n_acs=rng.randrange(1, 3), n_zones=rng.randrange(1, 4))
     b = ClientBuilder(proto, rng)
     b.preamble()
-    stage = rng.randrange(0, 12)
+    stage = rng.randrange(0, 14)
     b.call("airtouch", "init")
     b.op(op="step", k=rng.randrange(0, 3))
     ans = answers(inst)
@@ -429,7 +443,7 @@ def c15_script(seed, proto):
         b.op(op="quiesce")
         b.op(op="resolve", how="ok")
         b.op(op="step", k=rng.randrange(0, 4))
-        nfeed = min(stage - 2, 6)
+        nfeed = 6 if stage >= 12 else min(stage - 2, 6)
         for k in range(nfeed):
             if k < nfeed - 1:
                 b.op(op="quiesce")
@@ -443,6 +457,16 @@ def c15_script(seed, proto):
             b.op(op="step", k=rng.randrange(0, 3))
             b.call("airtouch", "check_for_updates")
             b.op(op="step", k=rng.randrange(0, 3))
+        if stage in (12, 13):
+            # the console stops reading (send buffer full); a reset of that link - by the watchdog at 330 s
+            # or after garbage - has to wait for the close of the stalled transport; shutdown lands there
+            b.op(op="quiesce")
+            b.op(op="pause")
+            if stage == 12:
+                b.op(op="advance", by=rng.choice([330000, 331000, 400000]))
+            else:
+                b.op(op="feed", b=[9, 9, 9, 9, 9, 9, 9, 9, 9, 9, 9, 9, 9, 9, 9, 9, 9, 9, 9, 9])
+            b.op(op="step", k=rng.randrange(0, 4))
         if stage == 11:                             # mid-reset
             b.op(op="quiesce")
             b.op(op="feed", b=[9, 9, 9, 9, 9, 9, 9, 9, 9, 9, 9, 9, 9, 9, 9, 9, 9, 9, 9, 9])
@@ -450,6 +474,8 @@ def c15_script(seed, proto):
     b.op(op="step", k=rng.randrange(0, 7))          # shutdown k loop iterations after the last action
     b.call("airtouch", "shutdown")
     b.op(op="step", k=rng.randrange(0, 7))
+    b.op(op="quiesce")
+    b.op(op="resume")                               # a close waiting for a stalled buffer completes
     b.op(op="quiesce")
     b.op(op="resolve_all", how=rng.choice(["ok", "refuse"]))
     b.op(op="quiesce")
@@ -612,6 +638,7 @@ def c10_script(seed, proto, combos=None, subscribers=False, raising=False):
             # subscribe / unsubscribe / double-subscribe anywhere in the history
             kind, tgt, who = rng.choice([("ac", f"ac:{a['n']}", f"A{a['n']}") for a in inst["acs"]] +
                                         [("ac_state", f"ac:{a['n']}", f"S{a['n']}") for a in inst["acs"]] +
+                                        [(k, f"ac:{a['n']}", f"B{a['n']}") for a in inst["acs"] for k in ("ac", "ac_state")] +
                                         [("zone", f"zone:{z['n']}", f"Z{z['n']}") for z in inst["zones"]] +
                                         [("airtouch", "airtouch", "T")])
             if rng.random() < 0.5:
@@ -756,7 +783,8 @@ def c19_pair(seed):
             a = rng.choice(inst4["acs"])
             if rng.random() < 0.5 or not inst4["zones"]:
                 a["status"] = dict(a["status"], power=rng.randrange(2), mode=rng.choice(AT4_MODES), fan=rng.randrange(7),
-                                   sp=18 + rng.randrange(10), temp_raw=600 + rng.randrange(250), spill=rng.randrange(2), timer=rng.randrange(2))
+                                   sp=18 + rng.randrange(10), temp_raw=600 + rng.randrange(250), spill=rng.randrange(2), timer=rng.randrange(2),
+                                   err=rng.choice([0, 0, 0, 5, 7, 0xFFFE]))
                 f4 = C.from_console("at4", 0x2D, C.at4_ac_status([a["status"]]))
                 st5 = dict(a["status"], sp=a["status"]["sp"] * 10 - 100)
                 f5 = C.from_console("at5", 0xC0, C.at5_ac_status([st5]))
@@ -771,6 +799,12 @@ def c19_pair(seed):
                 f5 = C.from_console("at5", 0xC0, C.at5_zone_status([st5]))
             for p, f in (("at4", f4), ("at5", f5)):
                 builders[p].op(op="feed", b=f, tag="status")
+                builders[p].op(op="quiesce")
+                # the console answers whatever error-information requests the client issued, with the
+                # text of the code each AC currently reports
+                replies = {str(x["n"]): C.from_console(p, 0x1F, C.error_info(x["n"], b"ER %d" % x["status"].get("err", 0)), pid=rng.randrange(256))
+                           for x in inst4["acs"] if x["status"].get("err", 0)}
+                builders[p].op(op="answer_errinfo", replies=replies)
                 builders[p].op(op="quiesce")
                 builders[p].op(op="snapshot", tag="pair")
             steps.append("status")
